@@ -169,12 +169,15 @@ def extract_switch(repo, cfg):
 PROBE = r"""
 #include "ElementNames.hpp"
 #include "PhysicalConstants.hpp"
+#include "PlanckPhotonSourceSpectrum.hpp"
 #include <cstdio>
 int main() {
 %s
   std::printf("NUMBER_OF_IONNAMES %%d\n", (int)NUMBER_OF_IONNAMES);
   std::printf("PLANCK %%.17g\n", PhysicalConstants::get_physical_constant(PHYSICALCONSTANT_PLANCK));
   std::printf("ELECTRONVOLT %%.17g\n", PhysicalConstants::get_physical_constant(PHYSICALCONSTANT_ELECTRONVOLT));
+  std::printf("BOLTZMANN %%.17g\n", PhysicalConstants::get_physical_constant(PHYSICALCONSTANT_BOLTZMANN));
+  std::printf("PLANCK_NUMFREQ %%d\n", (int)PLANCKPHOTONSOURCESPECTRUM_NUMFREQ);
   return 0;
 }
 """
@@ -229,6 +232,16 @@ def generate(repo=None, write=True):
         for s in sh:
             if s not in tracked:
                 tracked.append(s)
+    # the rows of the specification (Model/VernerTypes.lean: ionShellsSpec) are always generated, so
+    # that the driver can evaluate the specified sum even when the C++ switch has changed
+    spec_src = open(os.path.join(vlib.LEAN, "CMacVerif", "Model", "VernerTypes.lean"), encoding="utf-8").read()
+    m = re.search(r"def ionShellsSpec.*?\n((?:\s*\|.*\n)+)", spec_src)
+    if not m:
+        raise TranslateError("ionShellsSpec not found in Model/VernerTypes.lean")
+    for a, b, c in re.findall(r"\((\d+),\s*(\d+),\s*(\d+)\)", m.group(1)):
+        s = (int(a), int(b), int(c))
+        if s not in tracked:
+            tracked.append(s)
     pairs = []
     for (Z, N, s) in tracked:
         if (Z, N) not in pairs:
@@ -269,6 +282,7 @@ def generate(repo=None, write=True):
     w("Sources: data/verner_A.dat, verner_B.dat, verner_C.dat, verner_rec_data.txt (literals copied digit")
     w("for digit), the switch of VernerCrossSections::get_cross_section (preprocessed), enum values and")
     w("physical constants by evaluation.  Core Lean only. -/")
+    w("set_option linter.unusedSectionVars false")
     w("namespace CMacVerif.Gen.Verner")
     w("open CMacVerif.Verner")
     w("")
@@ -279,6 +293,8 @@ def generate(repo=None, write=True):
     w("  | _ => none")
     w("")
     w("def numberOfIons : Nat := %d" % nion)
+    w("/-- PLANCKPHOTONSOURCESPECTRUM_NUMFREQ -/")
+    w("def planckNumFreq : Nat := %d" % int(consts["PLANCK_NUMFREQ"]))
     w("")
     w("/-- the `get_cross_section_verner(Z, N, shell, energy)` calls summed by `get_cross_section`, in code order -/")
     w("def ionShells : Ion → List (Nat × Nat × Nat)")
@@ -308,6 +324,7 @@ def generate(repo=None, write=True):
     w("/-- PhysicalConstants: PHYSICALCONSTANT_ELECTRONVOLT, PHYSICALCONSTANT_PLANCK (shortest round-trip decimals) -/")
     w("def electronvolt : α := %s" % lit(shortest(consts["ELECTRONVOLT"])))
     w("def planck : α := %s" % lit(shortest(consts["PLANCK"])))
+    w("def boltzmann : α := %s" % lit(shortest(consts["BOLTZMANN"])))
     w("")
     w("def zeroA : RawA α := ⟨0.0, 0.0, 0.0, 0.0, 0.0, 0.0, 0.0⟩")
     w("/-- `_data_A[Z-1][N-1][shell-1]` as it stands in verner_A.dat: ⟨l, E_th, E_0, sigma_0, y_a, P, y_w⟩ -/")
